@@ -2,6 +2,7 @@ package main
 
 import (
 	"bytes"
+	"context"
 	"encoding/json"
 	"fmt"
 	"os"
@@ -11,6 +12,7 @@ import (
 	"sort"
 	"strings"
 	"sync"
+	"time"
 
 	"verif/internal/core"
 )
@@ -155,7 +157,18 @@ func checkC09(r *core.Run) {
 			} else {
 				args = append(args, "-bound", fmt.Sprint(bound), "-budget", fmt.Sprint(budget))
 			}
-			cmd := exec.Command(filepath.Join(dir, bin), args...)
+			// the explorer detects deadlocks under its own scheduler; a free-running run that deadlocks for real never
+			// returns, so every child gets a generous deadline (a run takes seconds)
+			limit := time.Duration(budget+120) * time.Second
+			if j.free {
+				limit = 180 * time.Second
+				if j.cold {
+					limit = 60 * time.Second
+				}
+			}
+			ctx, cancel := context.WithTimeout(context.Background(), limit)
+			defer cancel()
+			cmd := exec.CommandContext(ctx, filepath.Join(dir, bin), args...)
 			cmd.Env = os.Environ()
 			if j.race {
 				lp := filepath.Join(logDir, fmt.Sprintf("race%d", i))
@@ -166,6 +179,10 @@ func checkC09(r *core.Run) {
 			out, err := cmd.Output()
 			var rep c09Report
 			if jerr := json.Unmarshal(lastLine(out), &rep); jerr != nil {
+				if ctx.Err() == context.DeadlineExceeded {
+					crashes[i] = fmt.Sprintf("no result within %v: the concurrent calls do not return (deadlock)", limit)
+					return
+				}
 				if se := stderr.String(); strings.Contains(se, "fatal error:") || strings.Contains(se, "panic:") || strings.Contains(se, "goroutine ") {
 					// the Go runtime aborted the process (concurrent map access, unrecovered panic in a goroutine of the library)
 					first := se
@@ -197,7 +214,15 @@ func checkC09(r *core.Run) {
 			if k := strings.IndexByte(line, '\n'); k >= 0 {
 				line = line[:k]
 			}
-			r.Witness("process-aborted", jobs[i].sc, line, fmt.Sprintf("scenario %s: the concurrent calls made the Go runtime abort the process: %s", jobs[i].sc, crashes[i]), map[string]interface{}{"Scenario": jobs[i].sc, "Kind": "crash"})
+			clause := "process-aborted"
+			if strings.HasPrefix(line, "no result within") {
+				clause, line = "deadlock", "free-running"
+			}
+			what := "the concurrent calls made the Go runtime abort the process: "
+			if clause == "deadlock" {
+				what = ""
+			}
+			r.Witness(clause, jobs[i].sc, line, fmt.Sprintf("scenario %s: %s%s", jobs[i].sc, what, crashes[i]), map[string]interface{}{"Scenario": jobs[i].sc, "Kind": "crash"})
 			continue
 		}
 		if rep == nil {
